@@ -97,4 +97,7 @@ Section NPNum.
   Definition nn_add_m_mt (W : mat) : mat := nn_tab (length W) (length W) (fun i j => oadd O (nn_entry W i j) (nn_entry W j i)).
   Definition nn_fill_diag (S : mat) (v : vec) : mat :=
     nn_tab (length S) (length S) (fun i j => if Nat.eqb i j then nth i v (o0 O) else nn_entry S i j).
+  (* (y - yhat[:, np.newaxis]): entry (i, j) = y_j - yhat_i *)
+  Definition nn_row_minus_col (y yhat : vec) : mat :=
+    nn_tab (length yhat) (length y) (fun i j => osub O (nth j y (o0 O)) (nth i yhat (o0 O))).
 End NPNum.
